@@ -520,6 +520,42 @@ func C05(r *h.Run) {
 			}
 		}
 	}
+	// ---- a handler whose first Send failed before anything was written and which then returns an
+	// error: the response still carries exactly one status, the handler's ----
+	for _, proto := range protos {
+		n := 0
+		handler := failedFirstSendHandler(false, &n)
+		cfg := envCfg{Proto: proto}
+		req := httptest.NewRequest(http.MethodPost, "/verif.Svc/M", bytes.NewReader(h.Frame(0, []byte("q"))))
+		req.ProtoMajor, req.ProtoMinor = 2, 0
+		req.Header.Set("Content-Type", cfg.contentType(false))
+		rec := httptest.NewRecorder()
+		p := safely(func() { handler.ServeHTTP(rec, req) })
+		in := map[string]any{"proto": proto, "kind": "server", "handler": "its first Send fails in the codec; it then returns data_loss 'after the failed send'"}
+		r.Eval("status_after_failed_send", proto)
+		if p != nil {
+			r.Fail(h.Failure{Key: "conformance/panic", Family: "status_after_failed_send", What: fmt.Sprint("panic: ", p), Input: in})
+			continue
+		}
+		// what went over the wire: the headers as they were when they were sent (the first
+		// flush), the body, and the trailers
+		sent := rec.Result()
+		wire := httptest.NewRecorder()
+		for k, vs := range sent.Header {
+			wire.Header()[k] = vs
+		}
+		for k, vs := range sent.Trailer {
+			wire.Header()[http.TrailerPrefix+k] = vs
+		}
+		wire.Body = rec.Body
+		wire.Code = rec.Code
+		hdr, trailer := splitTrailers(wire)
+		code, msg := peerError(proto, "server", wire)
+		r.Sample("status_after_failed_send", map[string]any{"in": in, "status": rec.Code, "header": hdr, "trailer": trailer, "body_hex": h.Hex(rec.Body.Bytes()), "peer_code": code})
+		if code != "data_loss" || msg != "after the failed send" {
+			r.Fail(h.Failure{Key: "conformance/status-after-failed-send", Family: "status_after_failed_send", What: "a spec-following peer does not find the handler's status in the response (the status went into headers that had already been sent, or nowhere)", Input: in, Expected: "data_loss: after the failed send", Actual: code + ": " + msg})
+		}
+	}
 	c05UnaryVectors(r, rng.Fork("unary-vectors"))
 	c05SentinelError(r)
 	c05RequestVectors(r, rng.Fork("request-vectors"))
